@@ -1156,10 +1156,12 @@ def _try_interpret_as_pauli_string(op: Any) -> PauliString | None:
     }
     if (pauli := cached_gates.get(type(op.gate))) is not None:
         exponent = op.gate.exponent  # type: ignore[union-attr]
+        # The gate's matrix is exp(i*pi*global_shift*exponent) * pauli**exponent.
+        phase = 1j ** (2 * exponent * op.gate.global_shift)  # type: ignore[union-attr]
         if exponent % 2 == 0:
-            return PauliString()
+            return PauliString(coefficient=phase)
         if exponent % 2 == 1:
-            return pauli.on(op.qubits[0])
+            return PauliString(qubit_pauli_map={op.qubits[0]: pauli}, coefficient=phase)
         return None
 
     pauli_expansion_op = protocols.pauli_expansion(op, default=None)
